@@ -434,7 +434,13 @@ namespace occa {
 
       if (!hasVarArgs) {
         const int arg = (int) argNames.size();
-        argNames[token->to<identifierToken>().value] = arg;
+        const std::string &argName = token->to<identifierToken>().value;
+        if (argNames.find(argName) != argNames.end()) {
+          errorOn(token,
+                  "Duplicate macro argument name");
+          return false;
+        }
+        argNames[argName] = arg;
       } else {
         argNames[VA_ARGS] = -1;
       }
